@@ -296,6 +296,9 @@ class TrioTaskStatus:
 
 @register(name="trio:NurseryManager")
 class TrioNurseryManager:
+    def symbolic(self, interp, name):
+        return SObj("trio:NurseryManager", {}, tag=name)
+
     def m___aenter__(self, interp, obj, args, kwargs, fr):
         return SObj("trio:Nursery", {}, tag="nursery")
 
@@ -348,7 +351,10 @@ def advance(interp, label="t"):
 
 
 def _real(v):
-    from .sym import SymReal
+    from .sym import SymOpt, SymReal
+
+    if isinstance(v, SymOpt):
+        return _real(v.value)  # reached only where the path condition says it is not None
 
     if isinstance(v, SymReal):
         return v.e
@@ -422,9 +428,9 @@ def _timeouts(interp):
         t0 = now(interp)
         interp.deadline = None if timeout is None else t0 + _real(timeout)
         if timeout is not None and interp.ctx.choose(2, f"wait_for@{fr.line}", ["completes", "TimeoutError"]) == 1:
-            t = advance(interp, "t_timeout")
-            interp.ctx.assume(t == interp.deadline)
-            interp.yield_point(fr, "wait_for timeout")
+            d_ = interp.deadline
+            interp.yield_point(fr, "wait_for timeout")  # time passes while the inner awaitable is pending ...
+            interp.ctx.assume(now(interp) == d_)  # ... until exactly the deadline
             interp.deadline = None
             raise PyRaise(SObj(asyncio.TimeoutError, {"args": ()}), fr.where())
         try:
